@@ -365,6 +365,8 @@ def in_child(fn, *args, timeout: float = CHILD_TIMEOUT) -> Optional[dict]:
 GROUP = {
     "fresh": "DV_TRUE", "Converter(dv=True)": "DV_TRUE", "GenConverter()": "DV_TRUE", "Converter()": "DV_TRUE",
     "rehook": "DV_TRUE", "copy()": "DV_TRUE",
+    # converters the user configured with cattrs' own strategies before handing them in (predicates that match unions)
+    "preconf-json": "DV_TRUE", "union-passthrough": "DV_TRUE", "preconf-json(dv=False)": "DV_FALSE",
     "Converter(dv=False)": "DV_FALSE", "copy(dv=False)": "DV_FALSE", "copy-of-user(dv=False)": "DV_FALSE",
     "custom-forbid-extra": "FORBID", "copy(forbid-extra)": "FORBID",
     "custom-int-hook": "CUSTOM",
@@ -400,6 +402,18 @@ def make_converter(c, kind: str):
         return c.get_converter(cattrs.Converter())
     if kind == "rehook":
         return c.get_converter(c.get_converter())
+    if kind == "preconf-json":
+        from cattrs.preconf.json import make_converter as mk
+        return c.get_converter(mk())
+    if kind == "preconf-json(dv=False)":
+        from cattrs.preconf.json import make_converter as mk
+        return c.get_converter(mk(detailed_validation=False))
+    if kind == "union-passthrough":
+        from typing import Union
+        from cattrs.strategies import configure_union_passthrough
+        base = cattrs.Converter()
+        configure_union_passthrough(Union[str, int, float, bool, None], base)
+        return c.get_converter(base)
     if kind == "copy()":
         return c.get_converter(c.get_converter().copy())
     if kind == "copy(dv=False)":
